@@ -5,6 +5,7 @@ package pfcpiface
 
 import (
 	"errors"
+	"fmt"
 
 	"github.com/omec-project/upf-epc/logger"
 	"github.com/wmnsk/go-pfcp/ie"
@@ -246,6 +247,19 @@ func (pConn *PFCPConn) handleAssociationReleaseRequest(msg message.Message) (mes
 	return arres, nil
 }
 
+// safePFDContents decodes a PFD Contents IE. The go-pfcp decoder slices the payload
+// without checking the embedded lengths and panics on a malformed IE; that must be
+// reported as a decoding error, not take the agent down.
+func safePFDContents(pfdContent *ie.IE) (fields *ie.PFDContentsFields, err error) {
+	defer func() {
+		if r := recover(); r != nil {
+			fields, err = nil, fmt.Errorf("malformed PFD Contents IE: %v", r)
+		}
+	}()
+
+	return pfdContent.PFDContents()
+}
+
 func (pConn *PFCPConn) handlePFDMgmtRequest(msg message.Message) (message.Message, error) {
 	pfdmreq, ok := msg.(*message.PFDManagementRequest)
 	if !ok {
@@ -286,7 +300,7 @@ func (pConn *PFCPConn) handlePFDMgmtRequest(msg message.Message) (message.Messag
 		}
 
 		for _, pfdContent := range pfdCtx {
-			fields, err := pfdContent.PFDContents()
+			fields, err := safePFDContents(pfdContent)
 			if err != nil {
 				pConn.RemoveAppPFD(id)
 				return errUnmarshalReply(err, appIDPFD)
